@@ -17,7 +17,12 @@ package verifsim
 
 import (
 	"runtime"
+	"sync/atomic"
 )
+
+// doneHB gives the race detector the one edge the harness needs: everything a
+// task did happens before the scheduler's caller reads the results.
+var doneHB int32
 
 const (
 	stRunnable = iota
@@ -146,7 +151,7 @@ func Run(c Config, fns []func()) Result {
 	for i := range siteCount {
 		siteCount[i] = make([]uint32, 1<<16)
 	}
-	switches = nil
+	switches = make([]Switch, 0, 4096)
 	deadlock = false
 	aborted = false
 	logHash = 14695981039346656037
@@ -180,6 +185,7 @@ func Run(c Config, fns []func()) Result {
 	cur = first
 	first.turn = 1
 	waitMain()
+	atomic.LoadInt32(&doneHB) // acquire
 	active = false
 	cur = nil
 	res := Result{
@@ -215,6 +221,7 @@ func startTask(t *Task) {
 func taskMain(t *Task) {
 	waitTurn(t)
 	runTaskBody(t)
+	atomic.AddInt32(&doneHB, 1) // release
 	taskDone(t)
 }
 
